@@ -81,8 +81,25 @@ def block_content(v, h):
 
 
 def run(ctx):
-    return storeprop.run(ctx, ID, THEOREMS, "Props/C04.v", PROFILE, (30, 45), 100, 900, predicate, RULE,
-                         known_matchers={"block_content": block_content})
+    st = storeprop.run(ctx, ID, THEOREMS, "Props/C04.v", PROFILE, (30, 45), 100, 900, predicate, RULE,
+                       known_matchers={"block_content": block_content})
+    # entities that are merely NAMED like the id of the victim (the model cannot express a name that is an id: ids are
+    # numbers there) - implementation only: 11 kinds of victim x 4 ways of addressing it x 5 kinds of namesake
+    recs = ctx.run_impl("impl_idnames.py", {})
+    bad = [r for r in recs if r["problems"]]
+    ctx.coverage["id_namesake_deletions"] = len(recs)
+    ctx.coverage["id_namesake_failures"] = len(bad)
+    ctx.coverage["evaluations"] += len(recs)
+    ctx.coverage["rule"] += (" Plus, implementation only: for every kind of entity and every way of addressing it (name, id, "
+                             "position, object) a data array, a group and a source of another block, a section and a property "
+                             "are NAMED like the victim's id before it is deleted; each of them must survive unchanged.")
+    if bad and not ctx.violations:
+        rp = ctx.write_replay("%s-idnames-seed%d.json" % (ID, ctx.seed), {
+            "property": ID, "kind": bad[0]["problems"][0], "input": {"victim": bad[0]["victim"], "addressed_by": bad[0]["addressed_by"]},
+            "observed": bad[0]["problems"], "count": len(bad)})
+        ctx.violation("%d deletions touched entities merely named like the victim's id, e.g. deleting a %s by %s: %s" % (
+            len(bad), bad[0]["victim"], bad[0]["addressed_by"], bad[0]["problems"][0]), rp)
+    return st
 
 
 def replay(ctx):
